@@ -266,7 +266,14 @@ def run_tlc(shard, tier, h, res, known):
     history.prepare_workdir(wd)
     srv = Server(wd)
     try:
-        for ob in shard["obligations"]:
+        # binding probe: the reading of the real configuration object is only trusted if, from a pristine process, one
+        # complete and one empty configuration read back as the model's vocabulary; otherwise the object was restructured
+        # (not a property violation) and this search gives no verdict -- the internals-free searches of this check still do
+        probes = (("cfg:true:true:A:S1", ["T", "T", "att", "A", "S1"]), ("cfg:absent:absent:absent:absent", ["F", "F", "att", "None", "empty"]))
+        bound = all(srv.run([p])["cores"][-1] == want for p, want in probes)
+        if not bound:
+            res.count("tlc_binding_unavailable", len(shard["obligations"]))
+        for ob in (shard["obligations"] if bound else []):
             hist = ob["path"] + [ob["step"]]
             d = srv.run(hist)
             res.evaluations += 1
@@ -275,6 +282,9 @@ def run_tlc(shard, tier, h, res, known):
             got_core = d["cores"][-1]
             got_res = d["outcomes"][-1][0]
             before = d["cores"][-2] if len(hist) > 1 else ["unset"] * 5
+            if got_core == ["unbound"] or before == ["unbound"]:
+                res.count("tlc_binding_unavailable")     # the configuration object was restructured: no verdict from this search
+                continue
             if before != ob["from_core"] or got_core != ob["expect_core"] or got_res != ob["expect_res"]:
                 res.fail({"clause": "model-conformance", "family": "tlc", "history": hist, "model_from": ob["from_core"],
                           "expected": {"core": ob["expect_core"], "result": ob["expect_res"]},
